@@ -65,7 +65,7 @@ def run(c, index, tier):
     strategy = ch.choice("w", ["gain", "distance"], "strategy")
     kmeans0 = ch.weighted("w", [(True, 2), (False, 1)], "kmeans0")
     random_state = ch.choice("w", [None, 0, 5], "rs")
-    max_iter = ch.choice("w", [100, 10, 4, 2], "max_iter")
+    max_iter = ch.choice("w", [100, 10, 4, 2, 3, 5, 7, 11], "max_iter")
     weights = None
     if ch.boolean("w", 0.15, "weights"):
         weights = numpy.round(rs.rand(n) + 0.5, 3)
